@@ -293,6 +293,13 @@ func (x *Exec) modOfBlocks(blocks []*ssa.BasicBlock, depth int) *ModSet {
 				}
 			case *ssa.MakeClosure:
 				m.Ctr = true
+			case *ssa.Go:
+				for _, g := range []string{"SPAWN.n", "SPAWN.fn", "SPAWN.recv", "SPAWN.arg"} {
+					if x.isGhost(g) {
+						m.Ghosts[g] = true
+					}
+				}
+			case *ssa.Defer:
 			case ssa.CallInstruction:
 				m.union(x.modOfCall(in.Common(), depth))
 			}
